@@ -50,23 +50,25 @@ func addEmptyLines(lines []memLine) []memLine {
 }
 
 func block2Lines(block interval.Interval[model.Addr]) []memLine {
-	begin := block.Begin() / bytesPerLine * bytesPerLine
-	end := (block.End() + bytesPerLine - 1) / bytesPerLine * bytesPerLine
+	// Iterate over window numbers: the end address of the last window of
+	// the address space does not fit model.Addr.
+	first := block.Begin() / bytesPerLine
+	last := (block.End() - 1) / bytesPerLine
 
-	lines := make([]memLine, 0, (end-begin)/bytesPerLine)
-	for i := begin; i < end; i += bytesPerLine {
-		b := i
+	lines := make([]memLine, 0, last+1-first)
+	for w := first; w <= last; w++ {
+		b := w * bytesPerLine
 		if b < block.Begin() {
 			b = block.Begin()
 		}
 
-		e := i + bytesPerLine
-		if e > block.End() {
-			e = block.End()
+		e := block.End()
+		if w < last {
+			e = (w + 1) * bytesPerLine
 		}
 
 		lines = append(lines, memLine{
-			addr:   b / bytesPerLine * bytesPerLine,
+			addr:   w * bytesPerLine,
 			ranges: []interval.Interval[model.Addr]{interval.New(b, e)},
 		})
 	}
